@@ -14,3 +14,18 @@ Lemma tampered_version_wraps : exists o ms d,
   txn_execs (i_log (snd (run [] o ms d))) =
     ["ALTER TABLE t ADD COLUMN a text"; "INSERT INTO ""vespertide_version"" (version, id) VALUES (2, 'b')"].
 Proof. exists wrap_o, wrap_ms, wrap_d. vm_compute. repeat split. Qed.
+
+(* a raw_sql script with a bare COMMIT / END ends the migrator's own transaction (extended semantics
+   MigratorX.v, validated against libsqlite3 by K-mig on corpus/mig/h10_txn_bare): the start returns Err —
+   nothing injected — although it changed the database *)
+Definition bare_ms : list mig :=
+  [mkMig 1 "a" [mkAct [] [] ["CREATE TABLE ba (id integer)"]];
+   mkMig 2 "b" [mkAct [] [] ["CREATE TABLE b_c (x INTEGER); COMMIT;"]];
+   mkMig 3 "c" [mkAct [] [] ["ALTER TABLE ba ADD COLUMN b text"]]].
+
+Lemma raw_end_breaks_atomicity_refuted : exists o ms d,
+  existsb (fun m => existsb breaks_out (stmts_of o m)) ms = true /\
+  i_res (snd (run_x [] o ms d)) = Some (RErr DatabaseError) /\
+  d_applied (fst (run_x [] o ms d)) = ["CREATE TABLE ba (id integer)"; "CREATE TABLE b_c (x INTEGER)"; "ALTER TABLE ba ADD COLUMN b text"] /\
+  db_rows (fst (run_x [] o ms d)) = [(1%Z, "a"); (2%Z, "b"); (3%Z, "c")].
+Proof. exists (mkOpts Sqlite "" None false), bare_ms, (mkDb None []). vm_compute. repeat split. Qed.
